@@ -1,6 +1,7 @@
 """C08 Shared-memory buffer: structural clauses decided with the term dataflow."""
 import os
-from plint import symx
+from plint import symx, guards
+from plint.flow import Flow
 from plint.symx import C, norm, SymFlow, FState, term_mentions, site_of
 from plint.ir import strip_casts, line, show, calls, cv, root_var, walk, true_edge_guards
 from plint.units import AnalysisBroken
@@ -353,7 +354,43 @@ def run(prog, rep):
             okc, msgc = False, ("line %d: clear zero-fills only %s bytes from the segment start: unless that is at least the 16-byte header, the write position "
                                 "(or part of a position word) survives and every handle still sees a non-empty buffer" % (fills[0][5], symx.show(ln_t)))
     rep.ob("C08.2", fn, "clear", okc, "clear zero-fills the segment from offset 0 over its whole reported size (both positions become 0)" if okc else msgc, fills[0][5] if fills else fn.loc[0])
-    rep.floor("C08.2", 3)
+    # ... on every path that has something to clear: a return without the fill is excused only by a NULL buffer object, a NULL
+    # segment address or a refused lock (the tests of those results decide it; with one of them inverted clear returns early for
+    # every healthy buffer and "clear empties" is gone without any test noticing)
+    cf = prog.unit("pshmbuffer.c").fn("p_shm_buffer_clear")
+    bp = cf.param_names()[0]
+    gates = [c for (b, i, c) in cf.calls() if c.get("callee") in ("p_shm_get_address", "p_shm_lock")]
+    unfilled = []
+
+    def cl_stmt(st, b, i, stmt):
+        facts, filled = st
+        for c in calls(stmt):
+            if c.get("callee") in ("memset", "__builtin_memset", "__builtin___memset_chk") and len(c["args"]) >= 2 and cv(c["args"][1]) == 0:
+                filled = True
+        if stmt["k"] == "ret":
+            judge(facts, filled, line(stmt))
+            return []
+        return [(guards.transfer(facts, stmt), filled)]
+
+    def judge(facts, filled, ln):
+        if filled or guards.lookup(facts, bp) == 0:
+            return
+        for g in gates:
+            k_ = guards.key(g)
+            if guards.lookup(facts, k_) == 0 or any(fop == "=:" and fv == k_ and guards.lookup(facts, fk) == 0 for (fk, fop, fv) in facts):
+                return
+        unfilled.append(ln)
+
+    def cl_edge(st, b, to, on):
+        f2 = guards.edge_assume(st[0], b, on)
+        return None if f2 is None else (f2, st[1])
+    fl_ = Flow(cf, [(guards.EMPTY, False)], cl_stmt, cl_edge).run()
+    for (parent, (facts, filled)) in fl_.exit_states():
+        judge(facts, filled, cf.loc[0])
+    rep.ob("C08.2", cf, "clear:reached", len(gates) >= 2 and not unfilled, "every path through clear with a mapped segment and the lock granted performs the zero fill" if (len(gates) >= 2 and not unfilled) else
+           ("line %d: clear returns without the zero fill on a path where the buffer, its segment address and the lock were all fine: the buffer keeps its content" % unfilled[0]
+            if unfilled else "the address / lock calls of clear were not found"), unfilled[0] if unfilled else cf.loc[0])
+    rep.floor("C08.2", 4)
 
     # ---- C08.3 ----------------------------------------------------------------------
     fn, r = ops["p_shm_buffer_write"]
@@ -795,13 +832,17 @@ _run_clauses = run
 
 def run(prog, rep):
     _run_clauses(prog, rep)
-    from plint.wiring import check_zero_init
+    from plint.wiring import check_zero_init, check_error_contract
+    check_error_contract(rep, "C08.1", prog, ['pshmbuffer.c'], 8)
     check_zero_init(rep, "C08.7", prog, ['pshmbuffer.c'], 1)
 
 # generic robustness battery: renaming every local/parameter in these files must not change any verdict
 RENAME_LOCALS = ['src/pshmbuffer.c']
 
 SELFTEST = [
+    dict(id="clear-address-test-inverted", file="src/pshmbuffer.c", expect="C08.2", count=1,
+         old="\tif (P_UNLIKELY ((addr = p_shm_get_address (buf->shm)) == NULL)) {\n\t\tP_ERROR (\"PShmBuffer::p_shm_buffer_clear: p_shm_get_address() failed\");",
+         new="\tif (P_UNLIKELY ((addr = p_shm_get_address (buf->shm)) != NULL)) {\n\t\tP_ERROR (\"PShmBuffer::p_shm_buffer_clear: p_shm_get_address() failed\");"),
     dict(id="read-length-in-32-bit-local", file="src/pshmbuffer.c", expect="C08.8", count=1,
          old="\tpsize\t\tto_copy;", new="\tpuint\t\tto_copy;"),
     dict(id="buffer-new-clears-the-segment", file="src/pshmbuffer.c", expect="C08.7",
